@@ -376,8 +376,10 @@ func WriteZipArchive(st storage.Storer, w io.Writer, tree *object.Tree, commitHa
 		case filemode.Executable:
 			fh.SetMode(fs.FileMode(ApplyUmask(unixMode, true)))
 		case filemode.Symlink:
-			// Zip stores symlinks with mode 0o120000 + permissions.
-			fh.SetMode(fs.FileMode(0o120000 | (ApplyUmask(unixMode, true) & 0o777)))
+			// fs.ModeSymlink is what the zip writer maps to the Unix S_IFLNK
+			// bits (0o120000); that number is not a Go mode bit. Symlinks
+			// always get 0777 per canonical git.
+			fh.SetMode(fs.ModeSymlink | 0o777)
 		default:
 			fh.SetMode(fs.FileMode(ApplyUmask(unixMode, false)))
 		}
